@@ -188,6 +188,10 @@ func buildHostileScenario(r *Rng, idx int, maxConns int, endings []string) *Scen
 			}
 		}
 		sc.Params["batch"] = true
+		if r.Chance(0.4) {
+			// handlers released in the same step give way to each other at synchronisation points
+			sc.Params["yield_pct"] = []int{10, 30, 60}[r.Intn(3)]
+		}
 	}
 	return sc
 }
@@ -372,5 +376,6 @@ func runC01(t *testing.T, sc *Scenario) Result {
 	if sc.ParamBool("batch") {
 		res.probe("batch-steps", 1)
 	}
+	res.probe("yields-taken", obs.Yields)
 	return res
 }
